@@ -89,7 +89,7 @@ PROPS = {
                  'differential run of iterator-heavy histories (seek keys present/absent/outside, refresh rates 0..5, explicit Refresh, mutation under the iterator)'],
     ),
     'C10': dict(
-        modules=['NitroVerif.Props.C10'],
+        modules=['NitroVerif.Props.C10', 'NitroVerif.Props.C10pool'],
         runs=[('mvcc', gens.gen_mvcc_visit, 300, 20000)],
         keep_prefix=1,
         level='proof',
@@ -121,7 +121,7 @@ PROPS = {
                  'encoding/json, bufio, os are parameters of the model; crc32 is generic in the theorems'],
     ),
     'C13': dict(
-        modules=['NitroVerif.Props.C13', 'NitroVerif.Props.C13c'],
+        modules=['NitroVerif.Props.C13', 'NitroVerif.Props.C13c', 'NitroVerif.Props.C13lin', 'NitroVerif.Props.C13linSeq'],
         runs=[('skipseq', gens.gen_skipseq, 300, 20000)],
         iruns=[('skipconc', gens.gen_skipconc, 150, 5000)],
         level='proof',
@@ -143,7 +143,7 @@ PROPS = {
                  'with Go-managed memory node_frees stays 0 by construction (by-design finding D20): allocs - frees is compared with the number of successful inserts there, and with the node count in user-managed mode'],
     ),
     'C15': dict(
-        modules=['NitroVerif.Props.C15'],
+        modules=['NitroVerif.Props.C15', 'NitroVerif.Props.C15scan'],
         iruns=[('skipconc', gens.gen_skipconc, 150, 6000), ('skipconc', gens.gen_skipconc_scan, 100, 4000), ('skipconc', gens.gen_skipconc_free, 60, 3000)],
         level='proof',
         level_text='C15_monotone_partial, C15_research_ge_partial (Next never moves backwards on any of its three paths), C15_seek_ge_partial, C15_seek_no_stable_between are proved for every interleaving on the concurrent model. PARTIAL: whole-scan completeness/presence (C15_complete, C15_present) are not proved; steered schedules with iterators parked on nodes that are deleted (helpDelete success and failure paths) are validated against the model',
@@ -201,7 +201,7 @@ PROPS = {
                  'abstract barrier justified by C16/C17 (composition argued, not mechanised)'],
     ),
     'C03': dict(
-        modules=['NitroVerif.Props.C03', 'NitroVerif.Props.C13c'],
+        modules=['NitroVerif.Props.C03', 'NitroVerif.Props.C13c', 'NitroVerif.Props.C13linSeq'],
         iruns=[('mvccconc', gens.gen_mvccconc, 150, 6000), ('skipconc', gens.gen_skipconc, 100, 4000)],
         level='proof',
         level_text='C03_linearizable_atomic_search_partial: for every number of writers and every schedule of all actions (writers, readers, closes, collection and free jobs, any number of epochs) the constructed linearization (decisive step of each call; a losing Delete at the winner step) replays on the reference set with every observed result and each point lies between call and return; C03_next_snapshot, C03_one_winner, C03_same_node_losers. PARTIAL: every skiplist operation is one atomic action of this model; that is justified by the concurrent skiplist theorems C13 (updates linearize at the publish / level-0 mark, misses are absent at an instant inside the call), whose composition with this model is argued, not mechanised',
